@@ -10,7 +10,7 @@ from vlib import core  # noqa: E402
 
 
 def checks():
-    from vlib import fam_import, fam_chroot, fam_frontend, fam_compile, fam_seq
+    from vlib import fam_import, fam_chroot, fam_frontend, fam_compile, fam_seq, fam_eval
     table = {
         "C05": fam_import.check_c05,
         "C06": fam_import.check_c06,
@@ -21,6 +21,7 @@ def checks():
         "C04": fam_frontend.check_c04,
         "C01": fam_compile.check_c01,
         "C13": fam_seq.check_c13,
+        "C10": fam_eval.check_c10,
     }
     for mod, names in OPTIONAL:
         try:
